@@ -17,6 +17,10 @@ CURATED_A = [
 ]
 
 
+# coefficients whose reciprocal is not exact in binary floating point (numpy does this arithmetic in float64)
+BIG_A = [[[-49]], [[1, -49]], [[-75, 2]], [[98, -1], [-49, 1]], [[7, -93]], [[-13, 11]]]
+
+
 def random_A(rng, max_rows=2, max_cols=3, lo=-3, hi=3):
     r = rng.randint(1, max_rows)
     c = rng.randint(1, max_cols)
